@@ -434,3 +434,12 @@ S('REF_S_claim_in_helper', ['C04', 'C16', 'C08', 'C01', 'C09'], '*', pkg_fn=_cla
 S('REF_S_claim_inline_copy', ['C04'], 'bitarray_.py', "        if self._bitstore.immutable:\n            self._bitstore = self._bitstore._copy()\n            self._bitstore.immutable = False\n\n    def copy(", "        if self._bitstore.immutable:\n            self._bitstore = self._bitstore.getslice_msb0(None, None)\n            self._bitstore.immutable = False\n\n    def copy(")
 S('B1_S_new_length_preserving_mutator', ['C06', 'C20', 'C03'], 'bitarray_.py', "    def clear(self) -> None:\n        \"\"\"Remove all bits, reset to zero length.\"\"\"", "    def fill(self, value: Any) -> None:\n        \"\"\"Set every bit to bool(value).\"\"\"\n        self._bitstore.setall(1 if value else 0)\n\n    def clear(self) -> None:\n        \"\"\"Remove all bits, reset to zero length.\"\"\"")
 S('N4_S_new_option', ['C09', 'C20'], 'bitstring_options.py', "    @property\n    def bytealigned(self) -> bool:\n        return self._bytealigned\n", "    @property\n    def strict(self) -> bool:\n        return self._strict\n\n    @strict.setter\n    def strict(self, value: bool) -> None:\n        self._strict = bool(value)\n\n    @property\n    def bytealigned(self) -> bool:\n        return self._bytealigned\n")
+V('G5_stream_prepend_bypasses_slot', ['C12'], 'bitstream.py', "        bs = Bits._create_from_bitstype(bs)\n        super().prepend(bs)\n        self._pos = 0", "        bs = Bits._create_from_bitstype(bs)\n        self._addleft(bs)\n        self._pos = 0", ['G5'])
+V('G5_variant_reenters_slot', ['C12', 'C03'], 'bitarray_.py', "        bits %= (end - start)\n        if not bits:\n            return\n        rhs = self._slice(end - bits, end)", "        bits %= (end - start)\n        if not bits:\n            return\n        if bits > (end - start) // 2:\n            self._rol(end - start - bits, start, end)\n            return\n        rhs = self._slice(end - bits, end)", ['G5'])
+V('G5_append_direct', ['C12'], 'bitarray_.py', "        self._append(bs)\n\n    def prepend", "        self._addright(self._create_from_bitstype(bs))\n\n    def prepend", ['G5'])
+V('ITER1_try_then_fallback', ['C08'], 'bits.py', "            self._setbin_unsafe(''.join(str(int(bool(x))) for x in s))", "            try:\n                self._bitstore = BitStore(bitarray.bitarray(s))\n            except (TypeError, ValueError):\n                self._setbin_unsafe(''.join(str(int(bool(x))) for x in s))", ['ITER1'])
+V('F5_cache_untyped_again', ['C09', 'C02'], 'dtypes.py', "    @classmethod\n    @functools.lru_cache(CACHE_SIZE, typed=True)\n    def _create(", "    @classmethod\n    @functools.lru_cache(CACHE_SIZE)\n    def _create(", ['F5'])
+V('F5_float_memo', ['C09', 'C02'], 'bitstore_helpers.py', "def float2bitstore(f: Union[str, float], length: int, big_endian: bool) -> BitStore:\n    f = float(f)", "@functools.lru_cache(CACHE_SIZE)\ndef _packed_float(f: float, fmt: str) -> bytes:\n    return struct.pack(fmt, f)\n\n\ndef float2bitstore(f: Union[str, float], length: int, big_endian: bool) -> BitStore:\n    f = float(f)", ['F5'])
+V('A8_ior_skips_zero_operand', ['C16'], 'bitstore.py', "        self._bitarray |= other._bitarray\n        return self", "        if other._bitarray.any():\n            self._bitarray |= other._bitarray\n        return self", ['A8'])
+V('F2_container_of_cached_lists', ['C09', 'C05'], 'methods.py', "        for f_item in fmt:\n            _, tkns = tokenparser(f_item, tuple(sorted(kwargs.keys())))\n            tokens.extend(tkns)", "        token_lists = [tokenparser(f_item, tuple(sorted(kwargs.keys())))[1] for f_item in fmt]\n        tokens = token_lists[0] if token_lists else []\n        for tkns in token_lists[1:]:\n            tokens.extend(tkns)", ['F2'])
+V('A10_ctor_from_shared', ['C16', 'C04'], 'bits.py', "        s = self.__class__(length=min(n, len(self)))\n        n = min(n, len(self))", "        n = min(n, len(self))\n        s = self.__class__(Bits(n))", ['A10'])
